@@ -234,3 +234,23 @@ def ordinary_cells(rows):
             if x not in inq and ch != '\0' and ch not in RUST_WS:
                 out.append((x, y, ch))
     return out
+
+
+def bundled_whole(with_legend=False):
+    """the bundled diagrams as whole documents: (name, rows)"""
+    return bundled(strip_legend=not with_legend)
+
+
+TAG_NAMES = ['a', 'b1', 'red', 'bigc', 'w', 'k9', 'q7z', 'abc', 'A', 'Zz', 'n0', 'thick']
+
+
+def tagged_shape(rng):
+    """a box carrying several class tags (one {a,b,c} tag and/or several separate tags), optionally nested"""
+    names = rng.sample(TAG_NAMES, rng.randint(2, 5))
+    if rng.random() < 0.5:
+        inner = ' {' + ','.join(names) + '}'
+    else:
+        inner = ' ' + ' '.join('{' + n + '}' for n in names)
+    w = len(inner) + 2
+    rows = box(w, 1, inner={0: inner})
+    return rows
